@@ -81,7 +81,17 @@ class OsShim:
         dev = self.paths.get(path)
         self.log.append(("open", self.world.now, path, bool(dev and dev.present)))
         if dev is None or not dev.present:
-            raise FileNotFoundError(2, "No such file or directory", path)
+            # the node is gone - or still there while the adapter re-enumerates, or not yet accessible: whatever the reason,
+            # the device cannot be opened now
+            self._open_failures = getattr(self, "_open_failures", 0) + 1
+            k = self._open_failures % 4
+            if dev is None or k == 1:
+                raise FileNotFoundError(2, "No such file or directory", path)
+            if k == 2:
+                raise OSError(19, "No such device", path)
+            if k == 3:
+                raise PermissionError(13, "Permission denied", path)
+            raise OSError(5, "Input/output error", path)
         self._next_fd += 1
         fd = self._next_fd
         self.fds[fd] = dev
